@@ -412,7 +412,8 @@ def _max_advance(ctx: Ctx, c: Collector, holder: str, heap: str) -> None:
     if not rets:
         c.bad("sink", MAXADV, "return", "get_max_advance returns nothing", fi.loc)
         return
-    if len(rets) != 1 or rets[0].guards:
+    asserted = {T.strip(a.term[1]) for a in s.of_kind("assert") if not a.iters}
+    if len(rets) != 1 or any(not (g[2] and T.strip(g[1]) in asserted) for g in rets[0].guards):
         c.unk("sink", MAXADV, "return", "more than one return / conditional return", fi.loc)
         return
     r = rets[0]
